@@ -111,6 +111,10 @@ def confirm(srcdirs):
 
 
 def evaluate(ids):
+    override = None
+    if ids and ids[0].startswith("--checks="):
+        override = ids[0].split("=", 1)[1].split(",")
+        ids = ids[1:]
     sd = os.path.join(VERIF, "seeded")
     wt = scratch("eval")
     names = ids or sorted(os.listdir(sd))
@@ -120,7 +124,7 @@ def evaluate(ids):
             continue
         meta = json.load(open(os.path.join(d, "meta.json")))
         prop = meta.get("property", name.split("-")[0])
-        checks = [prop] + [c for c in meta.get("also_check", []) if c != prop]
+        checks = override or ([prop] + [c for c in meta.get("also_check", []) if c != prop])
         sh("git checkout -q -- . && git clean -fdq", cwd=wt)
         rc, out = sh(["git", "apply", os.path.join(d, "patch.diff")], cwd=wt)
         if rc != 0:
@@ -129,6 +133,9 @@ def evaluate(ids):
             print(name, "patch does not apply to current HEAD:", out[-200:], flush=True)
             continue
         result = {"repo_head": sh(["git", "-C", "/repo", "rev-parse", "--short", "HEAD"])[1].strip(), "checks": {}}
+        rp = os.path.join(d, "result.json")
+        if override and os.path.exists(rp):
+            result["checks"] = json.load(open(rp)).get("checks", {})
         for c in checks:
             if not os.path.exists(os.path.join(VERIF, "checks", c + ".py")):
                 result["checks"][c] = {"detected": False, "note": "no check registered"}
